@@ -186,7 +186,8 @@ def judge(c, i, m):
         what.append('the wrapper did not return the object the body returned')
     d = m['demand']
     ran = i['calls'] >= 1
-    if m['domain'] in (2, 3):                        # 3: function with *args in its principal use (Spec: spec_star_outcome)
+    if m['domain'] in (2, 3, 4):                     # 3: *args function in its principal use (spec_star_outcome); 4: *args function,
+                                                     # nothing for the tuple, every name a parameter (spec_outcome, empty tuple)
         if d[0] == 'raise':
             if ran:
                 what.append(f'the body ran with {i.get("binding")} although the statement demands one of the exceptions {d[1]} '
@@ -206,7 +207,7 @@ def judge(c, i, m):
             if fin[0] != 'body':
                 what.append(f'outcome {fin} ({i.get("exc")}) although every argument is acceptable; the body has to see {d[1]}')
                 kind = 'valid-call-refused'
-            elif fin[1:] != d[1:]:
+            elif fin[1:] != d[1:] + ([[]] if m['domain'] == 4 else []):
                 what.append(f'the body saw {fin[1:]}, the statement demands {d[1:]} (named binding' + (', then the *args tuple)' if len(d) > 2 else ')'))
                 kind = 'wrong-binding'
         # validator inputs: in chain order, each fed with its predecessor's output
@@ -235,6 +236,12 @@ def judge(c, i, m):
         elif not ran and (fin[0] != 'raise' or fin[1][:2] != [0, 2]):
             what.append(f'outcome {fin} ({i.get("exc")}), expected Python\'s TypeError for the name the function does not have')
             kind = 'wrong-exception'
+    if (not what and not c['sig'].get('varpos') and c['strict'] and not c['ignore'] and not ran
+            and len(c['args']) > len([sp for sp in named(c['sig']) if not sp['kwonly']])
+            and fin[0] == 'raise' and fin[1] == [0, 13]):
+        what.append('strict: a positional beyond the positional parameters of the function (an argument without declared Parameter) ends in '
+                    'ValidateException, the base class, not in TooManyArguments')
+        kind = 'too-many-positionals-base-class'
     return corr, not what, '; '.join(what), kind
 
 
@@ -277,6 +284,20 @@ def finding_matcher(f, case):
             return len(extras) > len([p for p in case['params'] if p['n'] not in signames])
         # K5: a positional for *args equals (Python ==) the value of a named positional
         return any(py_eq(a, u) for a in extras for u in head)
+    if mid == 'varargs_arrival_order':
+        # K6: *args function, return_as=ARGS (values passed positionally in arrival order), and not every parameter arrives
+        # positionally: a keyword argument, a positional parameter that gets no positional value, or a keyword-only parameter
+        # (its value, too, is passed positionally and lands in the tuple)
+        npos = len([sp for sp in named(case['sig']) if not sp['kwonly']])
+        return bool(case['sig'].get('varpos')) and case['mode'] == 0 and (
+            bool(case['kwargs']) or len(case['args']) < npos or any(sp['kwonly'] for sp in case['sig']['params']))
+    if mid == 'surplus_positional_without_varargs':
+        # K7: strict, no *args, more positionals than positional parameters
+        npos = len([sp for sp in named(case['sig']) if not sp['kwonly']])
+        return not case['sig'].get('varpos') and case['strict'] and len(case['args']) > npos
+    if mid == 'positional_only_by_keyword':
+        # K8: a positional-only parameter and a KWARGS mode
+        return any(sp.get('posonly') for sp in case['sig']['params']) and case['mode'] in (1, 2)
     if mid == 'self_name_not_implicit_first_positional':
         # K3 = the complement of self_guard: self by keyword, a Parameter named self, or a parameter self that is not the first
         return (any(n == 0 for n, _ in case['kwargs']) or any(p['n'] == 0 for p in case['params'])
@@ -639,6 +660,39 @@ def gen_varargs_case(rng, maxchain):
     return base_case(sig, params, 0 if rng.random() < 0.85 else rng.randrange(3), rng.random() < 0.6, False, rng.random() < 0.2, args, [],
                      tag='varargs')
 
+
+# --------------------------------------------------------------------------- positional-only parameters (implementation only)
+def gen_posonly_case(rng):
+    """def f(a=.., b=.., /, **kw): the model has no positional-only parameters; a few such signatures are run on the
+    implementation and judged by the property directly: Parameters with `add` chains, every parameter passed positionally,
+    expected binding = value + the sum of the adds"""
+    names = rng.sample([1, 2, 3, 4, 5, 6], rng.choice([1, 1, 2]))
+    sps = [{'n': n, 'kwonly': False, 'posonly': True, 'default': [1, rng.choice([0, 9]), 0] if rng.random() < 0.7 else None} for n in names]
+    if any(sp['default'] is None for sp in sps):
+        for sp in sps:
+            sp['default'] = None
+    params = [{'n': n, 'kind': 'plain', 'conv': 0, 'chain': [['add', rng.choice([0, 1, 3])] for _ in range(rng.randint(0, 2))],
+               'required': True, 'default': None, 'ext': None} for n in names]
+    rng.shuffle(params)
+    args = [[1, rng.choice([1, 2, 5]), 0] for _ in names]
+    c = base_case({'params': sps, 'varkw': rng.random() < 0.6, 'method': False}, params, rng.randrange(3), rng.random() < 0.5, False,
+                  rng.random() < 0.2, args, [], tag='posonly')
+    c['impl_only'] = True
+    return c
+
+
+def judge_posonly(c, i):
+    """-> (property_ok, what): every supplied value reaches the body through the chain of its Parameter"""
+    if i is None or 'error' in i:
+        return False, f'implementation worker failed: {i}'
+    add = {p['n']: sum(d[1] for d in p['chain']) for p in c['params']}
+    exp = sorted([sp['n'], [1, a[1] + add[sp['n']], 0]] for sp, a in zip(c['sig']['params'], c['args']))
+    if i['final'][0] != 'body':
+        return False, f'outcome {i["final"]} ({i.get("exc")}) although every argument is acceptable; the body has to see {exp}'
+    if i.get('binding') != exp:
+        return False, f'the body saw {i.get("binding")}, the statement demands {exp} (a supplied, validated value must reach its parameter)'
+    return True, ''
+
 # --------------------------------------------------------------------------- shared Parameter objects, calls in sequence
 def gen_shared(rng, maxchain):
     """The SAME Parameter objects decorate two or three functions with different signature defaults (modes, strictness,
@@ -740,6 +794,8 @@ def run_checks(pid, tier, seed, replay, gen_cases, props, rule, group_check=Fals
 
     def still_fails(f):
         c = f['witness']
+        if c.get('impl_only'):
+            return not judge_posonly(c, ck.run_impl('w_validate', [c])[0])[0]
         i = ck.run_impl('w_validate', [c])[0]
         m = ck.coq_eval(PRE, [coq_case(c)])[0]
         corr, prop, what, kind = judge(c, i, parse_model(m) if m else None)
@@ -748,6 +804,19 @@ def run_checks(pid, tier, seed, replay, gen_cases, props, rule, group_check=Fals
 
     units = gen_cases(ck.rng, tier, ck.scale()) if replay is None else [replay['case']]
     unit_impl = ck.run_impl('w_validate', units, timeout=900)
+    # implementation-only cases (positional-only parameters: not in the model), judged by the property directly
+    n_posonly = 0
+    keep = []
+    for u, ui in zip(units, unit_impl):
+        if u.get('impl_only'):
+            n_posonly += 1
+            ck.note_case(json.dumps(u, sort_keys=True), nontrivial=True)
+            ok, what = judge_posonly(u, ui)
+            if not ok:
+                ck.violation(what, u, stream='validate-posonly', extra={'impl': ui, 'class': 'posonly'}, matcher=finding_matcher)
+        else:
+            keep.append((u, ui))
+    units, unit_impl = [k[0] for k in keep], [k[1] for k in keep]
     # sequences over shared Parameter objects: every call becomes a single case for model / specification; a failing
     # call is reported with the sequence up to and including it
     cases, impl, origin = [], [], []
@@ -782,6 +851,8 @@ def run_checks(pid, tier, seed, replay, gen_cases, props, rule, group_check=Fals
         nontrivial = bool(c['params']) and (len(c['args']) + len(c['kwargs']) >= 1 or any(p['ext'] for p in c['params']))
         ck.note_case(key, nontrivial=nontrivial)
         corr, prop, what, kind = judge(c, i, m)
+        if pid == 'C13' and kind == 'too-many-positionals-base-class':
+            prop, what, kind = True, '', ''      # which class reports a surplus positional is a C12 matter (finding C12-K7)
         if pid == 'C12' and kind == 'unknown-name-accepted':
             prop, what, kind = True, '', ''      # the return_as modes disagree about a surplus name: a C13 matter (finding C13-K2), no gate violation
         if m:
@@ -843,7 +914,8 @@ def run_checks(pid, tier, seed, replay, gen_cases, props, rule, group_check=Fals
         floor = 0.5 * len(cases)
         ck.oblige('generator:non-degenerate', 'correspondence', len(ck.nontrivial) >= 0.3 * len(cases) and
                   hist['domain'].get('2', 0) >= floor, f'distinct non-trivial {len(ck.nontrivial)} of {len(cases)}, in-domain {hist["domain"].get("2", 0)}')
-    ck.coverage.update({'histograms': hist, 'disagreements': len(disagreements), 'cases': len(cases), 'shared_parameter_sequences': n_seq})
+    ck.coverage.update({'histograms': hist, 'disagreements': len(disagreements), 'cases': len(cases), 'shared_parameter_sequences': n_seq,
+                        'positional_only_impl_only': n_posonly})
     trip = list(zip(cases, impl, model))
     ck.samples = [{'case': c, 'impl': i, 'model': m} for c, i, m in trip[:2] + trip[-2:]]
     ck.assumptions = [
